@@ -296,6 +296,10 @@ impl Band {
     pub fn admits_trunc_beyond(&self, limit: i128) -> bool {
         self.hi.ge_int(limit + 1) || self.lo.le_int(-(limit + 1))
     }
+    /// Is there a q in the band with |q| > limit (before any truncation) ?
+    pub fn admits_beyond(&self, limit: i128) -> bool {
+        self.hi.gt_int(limit) || self.lo.lt_int(-limit)
+    }
     /// Is there a q in the band with |trunc(q)| <= limit ?
     pub fn admits_trunc_within(&self, limit: i128) -> bool {
         self.lo.lt_int(limit + 1) && self.hi.gt_int(-(limit + 1))
